@@ -53,27 +53,33 @@ def parse_grid(grid_str):
         parsed = json.loads(grid_str)
     else:
         parsed = copy.deepcopy(grid_str)
-    meta = parsed.pop('meta')
+    # Nothing is removed from the decoded objects while reading them: parts
+    # of the document may be one object referenced from several places.
+    meta = parsed['meta']
     # Decode version
-    version = Version(meta.pop('ver'))
+    version = Version(meta['ver'])
 
     # Parse the remaining elements
     metadata = {}
     for name, value in meta.items():
+        if name == 'ver':
+            continue
         metadata[name] = parse_embedded_scalar(value, version=version)
 
     grid = Grid(version=version, metadata=metadata)
 
     # Grab the columns in the order given
-    for col in parsed.pop('cols'):
-        name = col.pop('name')
+    for col in parsed['cols']:
+        name = col['name']
         meta = {}
         for key, value in col.items():
+            if key == 'name':
+                continue
             meta[key] = parse_embedded_scalar(value, version=version)
         grid.column[name] = meta
 
     # Parse the rows
-    for row in (parsed.pop('rows', []) or []):
+    for row in (parsed.get('rows') or []):
         parsed_row = {}
         for col, value in row.items():
             parsed_row[col] = parse_embedded_scalar(value, version=version)
